@@ -194,4 +194,11 @@ def rules(repo: Repo, tier: str) -> List[RuleResult]:
     return [rule_guard(repo),
             c04.rule_thread(repo, "C16.thread", "MultiAgentTrajectoryExporter.parse_plan", "create_multi_agent_triplet", init_fn="create_initial_state"),
             rule_export(repo, "C16.export", "MultiAgentTrajectoryExporter", "operators:"),
-            rule_objects(repo)]
+            rule_objects(repo)] + _member_rules(repo)
+
+
+def _member_rules(repo: Repo) -> List[RuleResult]:
+    """a joint action acts like its members: every member is applied by Operator.apply (with allow_inapplicable_actions=True
+    after the joint applicability test), so the conditional-effect guard and the copy discipline of apply are part of C16"""
+    from . import c03
+    return [c03.rule_antecedent(repo).as_rule("C16.member.antecedent"), c03.rule_copy(repo).as_rule("C16.member.copy")]
